@@ -154,6 +154,21 @@ def no_slash(s):
     return s if s else "s"
 
 
+# values the purl specification (PURL-TYPES) calls the default of a type: a tempting thing to "normalise away"
+SPEC_DEFAULTS = {
+    "gem": [("platform", "ruby"), ("repository_url", "https://rubygems.org")],
+    "maven": [("type", "jar"), ("classifier", "sources"), ("repository_url", "https://repo.maven.apache.org/maven2"), ("type", "pom")],
+    "npm": [("repository_url", "https://registry.npmjs.org")],
+    "pypi": [("repository_url", "https://pypi.org"), ("file_name", "name-1.0.tar.gz")],
+    "cargo": [("repository_url", "https://crates.io")],
+    "nuget": [("repository_url", "https://www.nuget.org"), ("repository_url", "https://api.nuget.org/v3/index.json")],
+    "golang": [("repository_url", "https://proxy.golang.org"), ("type", "module"), ("vcs_url", "git+https://github.com/a/b")],
+}
+GENERIC_DEFAULTS = [("arch", "noarch"), ("arch", "any"), ("os", "linux"), ("type", "jar"), ("platform", "ruby"), ("distro", "default"),
+                    ("repository_url", "https://example.org"), ("epoch", "0"), ("ext", "tar.gz")]
+DEFAULT_VERSIONS = ["latest", "0", "0.0.0", "*", "HEAD", "main", "master", "v0", "unknown", "none", "null"]
+
+
 def rand_tuple(r, plain=False, ty=None):
     text = rand_plain if plain else rand_text
     ty = ty if ty is not None else rand_type(r)
@@ -173,6 +188,13 @@ def rand_tuple(r, plain=False, ty=None):
             quals.append((k, None))
         else:
             quals.append((k, text(r)))
+    if r.chance(1, 6):
+        k, v = r.pick(SPEC_DEFAULTS.get(ty.lower(), []) + GENERIC_DEFAULTS)
+        if k not in seen:
+            seen.add(k)
+            quals.append((flipcase(r, k) if r.chance(1, 3) else k, v))
+    if r.chance(1, 24):
+        version = r.pick(DEFAULT_VERSIONS)
     sub = []
     for _ in range(r.pick([0, 0, 1, 2, 3])):
         s = no_slash(text(r))
